@@ -597,6 +597,11 @@ impl QueryEngine {
                 }
             }
             Expr::Between(between) => {
+                // `x NOT BETWEEN a AND b` matches exactly the rows outside [a, b]; min/max
+                // statistics cannot rule such a chunk out, so do not push it down.
+                if between.negated {
+                    return None;
+                }
                 if let Expr::Column(col) = between.expr.as_ref() {
                     if col.name == "timestamp" || col.name == "time" {
                         return None;
